@@ -547,6 +547,118 @@ fn case(t: &mut Tape, st: &mut Stats, max_len: usize) -> Verdict {
     Verdict::Pass(if nt { Some(fp(&log)) } else { None })
 }
 
+/// (bulk) one directory with more than a thousand files and a directory chain 20..45 levels deep, built through the
+/// commands; listed, sized, read, copied into and removed, against a set of paths.
+fn case_bulk(t: &mut Tape, st: &mut Stats) -> Verdict {
+    let root = format!("{}/c18b-{:?}", scratch_root(), std::thread::current().id()).replace(['(', ')'], "");
+    let _ = std::fs::remove_dir_all(&root);
+    std::fs::create_dir_all(&root).expect("mkdir");
+    assert!(root.contains("/dsverif-") && root.matches('/').count() >= 3, "harness: unsafe scratch root {}", root);
+    let mut ctx: Context = sdk_context();
+    let files = 1030 + t.below(700);
+    let levels = 20 + t.below(26);
+    let mut want: std::collections::BTreeSet<String> = std::collections::BTreeSet::new();
+    let finish = |v: Verdict| {
+        let _ = std::fs::remove_dir_all(&root);
+        v
+    };
+    let many = format!("{}/many", root);
+    want.insert(many.clone());
+    for i in 0..files {
+        let p = format!("{}/f{:04}.txt", many, i);
+        let r = exec(&mut ctx, if i % 3 == 0 { "touch" } else { "writefile" }, &if i % 3 == 0 { vec![p.clone()] } else { vec![p.clone(), format!("content {}", i)] });
+        if !ok_true(&r) {
+            return finish(fail("C18/bulk/create", json!({"path": p, "file_number": i, "got": show(&r)})));
+        }
+        want.insert(p);
+    }
+    // the deep chain: created by one write that has to make every missing parent
+    let mut deep = format!("{}/deep", root);
+    want.insert(deep.clone());
+    for l in 0..levels {
+        deep = format!("{}/d{}", deep, l);
+        want.insert(deep.clone());
+    }
+    let leaf = format!("{}/leaf.txt", deep);
+    let r = exec(&mut ctx, "writefile", &[leaf.clone(), "at the bottom".to_string()]);
+    if !ok_true(&r) {
+        return finish(fail("C18/bulk/deep-write", json!({"path": leaf, "levels": levels, "got": show(&r)})));
+    }
+    want.insert(leaf.clone());
+    let list = |ctx: &mut Context, pattern: String| -> Option<std::collections::BTreeSet<String>> {
+        match exec(ctx, "glob_array", &[pattern]) {
+            CommandResult::Continue(Some(h)) => {
+                let len: usize = match exec(ctx, "array_length", &[h.clone()]) {
+                    CommandResult::Continue(Some(l)) => l.parse().ok()?,
+                    _ => return None,
+                };
+                let mut got = std::collections::BTreeSet::new();
+                for i in 0..len {
+                    if let CommandResult::Continue(Some(v)) = exec(ctx, "array_get", &[h.clone(), i.to_string()]) {
+                        got.insert(v);
+                    }
+                }
+                let _ = exec(ctx, "release", &[h]);
+                if got.len() != len {
+                    return None;
+                }
+                Some(got)
+            }
+            _ => None,
+        }
+    };
+    let d = |what: &str, extra: serde_json::Value| json!({"files_in_one_directory": files, "directory_levels": levels, "mismatch": what, "detail": extra});
+    let diff = |got: &Option<std::collections::BTreeSet<String>>, want: &std::collections::BTreeSet<String>| match got {
+        None => json!("no listing"),
+        Some(g) => json!({"listed": g.len(), "expected": want.len(), "missing": want.difference(g).take(5).collect::<Vec<_>>(), "unexpected": g.difference(want).take(5).collect::<Vec<_>>()}),
+    };
+    let got = list(&mut ctx, format!("{}/**/*", root));
+    if got.as_ref() != Some(&want) {
+        return finish(fail("C18/bulk/listing", d("glob_array root/**/*", diff(&got, &want))));
+    }
+    let only_many: std::collections::BTreeSet<String> = want.iter().filter(|p| p.starts_with(&format!("{}/", many))).cloned().collect();
+    let got = list(&mut ctx, format!("{}/*.txt", many));
+    if got.as_ref() != Some(&only_many) {
+        return finish(fail("C18/bulk/listing", d("glob_array many/*.txt", diff(&got, &only_many))));
+    }
+    // read a few back
+    for _ in 0..6 {
+        let i = t.below(files);
+        let p = format!("{}/f{:04}.txt", many, i);
+        let expect = if i % 3 == 0 { String::new() } else { format!("content {}", i) };
+        let r = exec(&mut ctx, "readfile", &[p.clone()]);
+        let sz = exec(&mut ctx, "get_file_size", &[p.clone()]);
+        if !matches!(&r, CommandResult::Continue(Some(v)) if *v == expect) || !matches!(&sz, CommandResult::Continue(Some(v)) if *v == expect.len().to_string()) {
+            return finish(fail("C18/bulk/read-back", d("readfile / get_file_size", json!({"path": p, "expected": expect, "readfile": show(&r), "size": show(&sz)}))));
+        }
+    }
+    let r = exec(&mut ctx, "readfile", &[leaf.clone()]);
+    if !matches!(&r, CommandResult::Continue(Some(v)) if v == "at the bottom") {
+        return finish(fail("C18/bulk/read-back", d("readfile of the deep leaf", json!(show(&r)))));
+    }
+    // a non-empty directory needs -r; with -r exactly that subtree goes
+    let r = exec(&mut ctx, "rm", &[many.clone()]);
+    let still = std::fs::read_dir(&many).map(|d| d.count()).unwrap_or(0);
+    if !failed(&r) || still != files {
+        return finish(fail("C18/bulk/rm-without-r", d("rm of the directory with all the files", json!({"output": show(&r), "entries_left": still}))));
+    }
+    let r = exec(&mut ctx, "rm", &["-r".to_string(), format!("{}/deep/d0", root)]);
+    if !ok_true(&r) {
+        return finish(fail("C18/bulk/rm-r", d("rm -r deep/d0", json!(show(&r)))));
+    }
+    want.retain(|p| !p.starts_with(&format!("{}/deep/d0", root)));
+    let got = list(&mut ctx, format!("{}/**/*", root));
+    if got.as_ref() != Some(&want) {
+        return finish(fail("C18/bulk/listing", d("glob_array after rm -r of the deep chain", diff(&got, &want))));
+    }
+    let r = exec(&mut ctx, "rm", &["-r".to_string(), many.clone()]);
+    if !ok_true(&r) || std::path::Path::new(&many).exists() {
+        return finish(fail("C18/bulk/rm-r", d("rm -r of the directory with all the files", json!(show(&r)))));
+    }
+    st.class("directory-with-over-1024-files");
+    finish(Verdict::Pass(Some(fp(&(files, levels)))))
+}
+
 fn case_q(t: &mut Tape, st: &mut Stats) -> Verdict {
     case(t, st, 30)
 }
@@ -557,7 +669,7 @@ fn case_t(t: &mut Tape, st: &mut Stats) -> Verdict {
 pub fn property() -> Property {
     Property {
         id: "C18",
-        rule: "histories of 1..30 (thorough ..80) file operations inside a fresh tmpfs scratch directory (absolute paths only): writefile, appendfile, readfile (one write in forty is a text of 8 or 16 KiB with a multi-byte character on the 8192-byte boundary, read back at once), writebinfile+readbinfile (arbitrary bytes through handles; after a refused binary write the same data is written again to another path), touch, mkdir, cp, mv, rm (with/without -r, one or two paths), rmdir, is_path_exists / is_file / is_dir, get_file_size, glob_array root/**/*, basename, dirname, join_path; path pool of files with extensions and directories without, nested, with spaces and non-ASCII, incl. paths below a file; operations on missing paths and wrong kinds. Oracle: reference tree BTreeMap<path, Dir|File(bytes)>; after EVERY step the command output and the real directory (walked with std::fs, contents read back) are compared with the model; a failing operation must leave the tree unchanged. Non-trivial: >= 1 failing operation and a cp/mv onto an existing file or into a directory; distinct by history",
+        rule: "histories of 1..30 (thorough ..80) file operations inside a fresh tmpfs scratch directory (absolute paths only): writefile, appendfile, readfile (one write in forty is a text of 8 or 16 KiB with a multi-byte character on the 8192-byte boundary, read back at once), writebinfile+readbinfile (arbitrary bytes through handles; after a refused binary write the same data is written again to another path), touch, mkdir, cp, mv, rm (with/without -r, one or two paths), rmdir, is_path_exists / is_file / is_dir, get_file_size, glob_array root/**/*, basename, dirname, join_path; path pool of files with extensions and directories without, nested, with spaces and non-ASCII, incl. paths below a file; operations on missing paths and wrong kinds. Oracle: reference tree BTreeMap<path, Dir|File(bytes)>; after EVERY step the command output and the real directory (walked with std::fs, contents read back) are compared with the model; a failing operation must leave the tree unchanged; (bulk) a directory of 1030..1729 files and a chain of 20..45 directories made by one write, built through the commands: listed (root/**/* and many/*.txt), read back, rm without -r refused, rm -r removing exactly the subtree. Non-trivial: >= 1 failing operation and a cp/mv onto an existing file or into a directory; distinct by history",
         assumptions: &[
             "outside the domain (not generated): directory sources for cp/mv, cp/mv with source == target, mv of a file to a missing target without an extension, mv into a directory that already holds an entry of that name, trailing separators, glob metacharacters in names, permissions, symlinks",
             "the output of rm on a missing path and of touch on a directory is not compared (the tree is)",
@@ -572,6 +684,15 @@ pub fn property() -> Property {
                 },
                 case: case_q,
                 min_classes: &[("cp-onto-existing-file", 500), ("mv-onto-existing-file", 300), ("mv-into-directory", 300), ("rm-non-empty-directory-without-r", 300), ("binary-data-written-again-after-a-refused-write", 500), ("text-with-a-multi-byte-character-at-a-multiple-of-8192-bytes", 1000)],
+            },
+            Section {
+                name: "bulk",
+                plan: |t| match t {
+                    Tier::Quick => Plan::Random { cases: 48, max_len: 12 },
+                    Tier::Thorough => Plan::Random { cases: 1_000, max_len: 12 },
+                },
+                case: case_bulk,
+                min_classes: &[("directory-with-over-1024-files", 40)],
             },
             Section {
                 name: "long-histories",
